@@ -18,11 +18,11 @@ RULE = ('.Trash state (6) x command (put, list, restore+reply, empty, empty 0, r
         '(0, 1000); non-trivial = the command examined the volume (stat of .Trash seen in the trace); distinct = outcome class x state x command')
 STATES = ['sticky', 'nonsticky', 'symlink-sticky', 'symlink-nonsticky', 'file', 'absent']
 CMDS = ['put', 'list', 'restore', 'empty', 'empty0', 'rm-star', 'rm-exact']
-VOLS = ['v1', 'v1+v2']
+VOLS = ['v1', 'v1+v2', 'v1-sticky-topdir']
 
 
 def dimensions(tier):
-    return {'state': len(STATES), 'command': len(CMDS), 'volumes': 2, 'uid': 2}
+    return {'state': len(STATES), 'command': len(CMDS), 'volumes': 3, 'uid': 2}
 
 
 def cases(tier):
@@ -45,6 +45,10 @@ def run_case(c):
     mounts = ['/', '/mnt/v1'] + (['/mnt/v2'] if c['vols'] == 'v1+v2' else [])
     W = scen.base_world(mounts=mounts, uid=uid, cwd='/mnt/v1/w')
     W.dir('/mnt/v1/w').file('/mnt/v1/w/new', 'to be trashed\n')
+    if c['vols'] == 'v1-sticky-topdir':
+        W.dir('/mnt/v1', mode=0o1777)        # the volume's top directory itself is sticky (like /tmp): irrelevant for the .Trash checks
+    alt = '/mnt/v1/.Trash-%d' % uid
+    scen.add_trashed(W, alt, 'myalt', 'w/myalt-x1', '2020-01-03T00:00:00')      # the user's own .Trash-$uid is always usable
     st = c['st']
     phys = None
     if st == 'sticky':
@@ -73,6 +77,10 @@ def run_case(c):
         after = sb.snapshot()
     secure = st == 'sticky'
     detail = {'argv': argv, 'exit': r.exit, 'out': r.out[-400:], 'err': r.err[-400:]}
+    if cmd == 'list' and 'myalt-x1' not in r.out:
+        return {'verdict': 'viol', 'sig': 'C08|own-Trash-uid-not-listed|st=%s' % st, 'klass': 'alt-not-listed', 'detail': {'out': r.out[-300:], 'err': r.err[-300:]}}
+    if cmd in ('empty', 'rm-star') and world.under(after, alt + '/files/myalt'):
+        return {'verdict': 'viol', 'sig': 'C08|own-Trash-uid-not-purged|cmd=%s|st=%s' % (cmd, st), 'klass': 'alt-not-purged', 'detail': {'err': r.err[-300:]}}
     examined = any('/mnt/v1/.Trash' in p for t in r.trace for p in t[2])
     dims = 'st=%s|cmd=%s' % (st, cmd)
     sub_b = world.under(before, '/mnt/v1/.Trash') if st not in ('symlink-sticky', 'symlink-nonsticky') else world.under(before, '/mnt/v1/.real')
